@@ -135,3 +135,9 @@ package btree
 //@   ensures [C01 C07] right-children: (forall i :: 0 <= i && i < len(tree.Root.Children[1].Children) ==> tree.Root.Children[1].Children[i] == old(tree.Root).Children[plus(len(tree.Root.Children[0].Children), i)])
 //@   ensures [C01 C07] left-reparented: (forall i :: 0 <= i && i < len(tree.Root.Children[0].Children) ==> tree.Root.Children[0].Children[i].Parent == tree.Root.Children[0])
 //@   ensures [C01 C07] right-reparented: (forall i :: 0 <= i && i < len(tree.Root.Children[1].Children) ==> tree.Root.Children[1].Children[i].Parent == tree.Root.Children[1])
+
+//@ -- New: delegates to NewWith, whose documented panic for order < 3 is stated there (panics-iff)
+//@ func New
+//@   requires order >= 3
+//@   modifies nothing
+//@   ensures [C01 C07 C15 C17] fresh(result) && Cfg(result) && result.m == order && result.size == 0 && result.Root == nil && result.Comparator != nil && SWO(result.Comparator, argof(result.Comparator, 0))
